@@ -61,6 +61,8 @@ func (t *booleanScalar) CoerceOut(v interface{}) (interface{}, error) {
 		var b bool
 		if b, err = strconv.ParseBool(tv); err == nil {
 			v = b
+		} else {
+			v = nil
 		}
 	default:
 		err = newCoerceErr(tv, "Boolean")
